@@ -137,16 +137,10 @@ mod protected {
                     A: SeqAccess<'de>,
                 {
                     let mut arr = HeapBytes::default();
-                    let mut idx: usize = 0;
-                    let size_hint = seq.size_hint().unwrap_or(1);
-                    arr.resize(size_hint, 0);
 
                     while let Some(elem) = seq.next_element()? {
-                        if idx > arr.len() {
-                            arr.resize(idx, 0);
-                        }
-                        arr[idx] = elem;
-                        idx += 1;
+                        let len = arr.len();
+                        arr.resize(len + 1, elem);
                     }
 
                     Ok(arr)
@@ -182,20 +176,16 @@ mod protected {
                 where
                     A: SeqAccess<'de>,
                 {
-                    let mut arr = HeapBytes::gen_locked().expect("couldn't create locked bytes");
-                    let mut idx: usize = 0;
-                    let size_hint = seq.size_hint().unwrap_or(1);
-                    arr.resize(size_hint, 0);
+                    // collect into page-aligned (wiped on release) memory first,
+                    // then lock the final buffer once
+                    let mut arr = HeapBytes::default();
 
                     while let Some(elem) = seq.next_element()? {
-                        if idx > arr.len() {
-                            arr.resize(idx, 0);
-                        }
-                        arr[idx] = elem;
-                        idx += 1;
+                        let len = arr.len();
+                        arr.resize(len + 1, elem);
                     }
 
-                    Ok(arr)
+                    arr.mlock().map_err(Error::custom)
                 }
 
                 fn visit_bytes<E>(self, v: &[u8]) -> Result<Self::Value, E>
@@ -229,20 +219,25 @@ mod protected {
                 where
                     A: SeqAccess<'de>,
                 {
-                    let mut arr = HeapByteArray::<LENGTH>::gen_locked()
-                        .expect("couldn't create locked bytes");
+                    let mut arr =
+                        HeapByteArray::<LENGTH>::new_locked().map_err(Error::custom)?;
                     let mut idx: usize = 0;
-                    let size_hint = seq.size_hint().unwrap_or(0);
-                    if size_hint != LENGTH {
-                        Err(Error::invalid_length(size_hint, &stringify!(LENGTH)))
-                    } else {
-                        while let Some(elem) = seq.next_element()? {
-                            arr[idx] = elem;
-                            idx += 1;
-                        }
 
-                        Ok(arr)
+                    // the format may not provide a size hint (e.g. JSON), so count
+                    // the elements instead
+                    while let Some(elem) = seq.next_element()? {
+                        if idx >= LENGTH {
+                            return Err(Error::invalid_length(idx + 1, &stringify!(LENGTH)));
+                        }
+                        arr[idx] = elem;
+                        idx += 1;
                     }
+
+                    if idx != LENGTH {
+                        return Err(Error::invalid_length(idx, &stringify!(LENGTH)));
+                    }
+
+                    Ok(arr)
                 }
 
                 fn visit_bytes<E>(self, v: &[u8]) -> Result<Self::Value, E>
